@@ -1247,3 +1247,69 @@ def _in(node, root, _cache={}):
         _cache.clear()
         _cache[key] = (root, {id(x) for x in walk(root)})
     return id(node) in _cache[key][1]
+
+
+# -------------------------------------------------------------------------------------------------
+# factories forward every parameter
+# -------------------------------------------------------------------------------------------------
+
+def factory_forwarding(view, ctors):
+    """analyse a factory function `new_x(p1, ..., pn) { return std::make_shared<T>(a1, ..., am); }` (also `new T(...)`,
+    `T(...)`): -> list of (kind, text) problems and a description.
+    kind 'dropped': a parameter of the factory is not used at all; 'slot': an argument that is a plain parameter is received by
+    a constructor parameter of another name; 'unknown': not decidable (no construction found / constructor not identified).
+    ctors: candidate constructor Functions of the constructed class."""
+    f = view.fn
+    sites = []
+    for n in walk(f.body):
+        if n.get("k") == "Call" and (n.get("callee") or "").endswith("make_shared"):
+            sites.append(n)
+        elif n.get("k") in ("New",) and n.get("a") is not None:
+            sites.append(n)
+    if not sites:
+        sites = [n for n in walk(f.body) if n.get("k") in ("Construct", "TempObj") and len(n.get("a", [])) >= 1 and any(c.cls == (n.get("ccls") or "") for c in ctors)]
+    if len(sites) != 1:
+        return [("unknown", "%d construction sites of the product found" % len(sites))], ""
+    site = sites[0]
+    args = site.get("a", [])
+    used = set()
+    for x in walk(f.body):
+        if x.get("k") == "Ref" and x.get("dk") == "param":
+            used.add(x["d"])
+    problems = []
+    for p in f.params:
+        if p.get("n") and p["d"] not in used:
+            problems.append(("dropped", "parameter `%s` is never used: the product is built without it (the constructor's default takes its place)" % p["n"]))
+    def arg_param(a):
+        av = view.value(a)
+        while av.get("k") in ("Construct", "TempObj") and len(av.get("a", [])) == 1:
+            av = view.value(av["a"][0])
+        if av.get("k") == "Call" and (av.get("callee") or "").endswith(("std::move", "std::forward")) and av.get("a"):
+            av = view.value(av["a"][0])
+        return av if av.get("k") == "Ref" and av.get("dk") == "param" else None
+    norm = lambda s_: (s_ or "").strip("_").lower()
+    cands = [c for c in ctors if len(c.params) >= len(args)]
+    exact = [c for c in ctors if len(c.params) == len(args)]
+    pool = exact or cands
+    if not pool:
+        return problems + [("unknown", "no constructor with >= %d parameters found" % len(args))], render(site)[:120]
+    # overloads of equal arity: the one whose parameter names agree best with the arguments is the one overload resolution
+    # picks in every case of interest (same-named slots have the same types)
+
+    def score(c):
+        return sum(1 for k, a in enumerate(args) if arg_param(a) is not None and k < len(c.params) and norm(arg_param(a).get("n")) == norm(c.params[k]["n"]))
+    pool = sorted(pool, key=lambda c: (-score(c), len(c.params)))
+    ctor = pool[0]
+    for k, a in enumerate(args):
+        av = view.value(a)
+        while av.get("k") in ("Construct", "TempObj") and len(av.get("a", [])) == 1:
+            av = view.value(av["a"][0])
+        if av.get("k") == "Call" and (av.get("callee") or "").endswith(("std::move", "std::forward")) and av.get("a"):
+            av = view.value(av["a"][0])
+        if av.get("k") == "Ref" and av.get("dk") == "param" and k < len(ctor.params):
+            pn, cn = av.get("n"), ctor.params[k]["n"]
+            if cn and norm(pn) != norm(cn) and norm(pn) not in norm(cn) and norm(cn) not in norm(pn):
+                # a differently named slot is only suspicious if a slot of the argument's own name exists elsewhere
+                if any(norm(c2["n"]) == norm(pn) for c2 in ctor.params):
+                    problems.append(("slot", "argument %d `%s` is received by constructor parameter `%s`, while the constructor has a parameter `%s` at another position" % (k + 1, pn, cn, pn)))
+    return problems, "%s -> %s(%s)" % (render(site)[:60], ctor.name, ", ".join(p["n"] for p in ctor.params))
